@@ -415,6 +415,35 @@ def rule_substitutions(ctx, pmod, model):
                         bad.append((text(num, acc, sf), "no substitute", v))
             ctx.check(not bad, R, "%s[%s]" % (fname, num), fi.where(), "%s([<prefix>%s<suffix>], 0)" % (fname, num),
                       "%d answers break the rule's promise, e.g. %s" % (len(bad), bad[:3]))
+    # ignore_suffix=True: the rule is applied whatever the chord's suffix is, and still answers what it promises --
+    # roots at the promised distance AND chords of the promised kind
+    kinds = {"substitute_minor_for_major": (3, ("M", "M7")), "substitute_major_for_minor": (9, ("m", "m7")),
+             "substitute_diminished_for_diminished": ("dimcycle", ("dim", "dim7"))}
+    for fname, (promise, quality) in kinds.items():
+        fi = pmod.func(fname)
+        foreign = ["", "7", "M", "m", "dim", "m7", "M7", "dim7", "sus4"]
+        for num in (("I", "V") if ctx.tier != "thorough" else NUMERALS):
+            calls = [((acc, sf), fi, [[text(num, acc, sf)], 0, True]) for acc in (0, -1, 2) for sf in foreign]
+            try:
+                out = eval_calls(ctx, calls, model)
+            except CannotDecide as e:
+                raise AnalysisError("%s(%s.., ignore_suffix=True): %s" % (fname, num, e))
+            bad = []
+            for (acc, sf), _, _a in calls:
+                kind, v = out[(acc, sf)]
+                if kind != "return" or not isinstance(v, list) or not v:
+                    bad.append((text(num, acc, sf), kind, v))
+                    continue
+                for i, ans in enumerate(v):
+                    pn = _parse_numeral(ans)
+                    if pn is None or not _canonical(ans):
+                        bad.append((text(num, acc, sf), "ill-formed numeral", ans))
+                    elif pn[2] not in quality:
+                        bad.append((text(num, acc, sf), "answers a %r chord, the rule substitutes %s chords" % (pn[2], "/".join(quality)), ans))
+                    elif _num_pitch(pn[0], pn[1]) != (_num_pitch(num, acc) + (3 * (i + 1) if promise == "dimcycle" else promise)) % 12:
+                        bad.append((text(num, acc, sf), "root at the wrong distance", ans))
+            ctx.check(not bad, R, "%s.ignore_suffix[%s]" % (fname, num), fi.where(), "%s([<prefix>%s<any suffix>], 0, ignore_suffix=True)" % (fname, num),
+                      "%d answers break the rule's promise, e.g. %s" % (len(bad), bad[:3]))
     # the general substitute(): every answer is a well-formed numeral with a constructible suffix
     fi = pmod.func("substitute")
     ctx.touch(fi)
